@@ -647,7 +647,7 @@ func (in *inv) step(op *Op) {
 			// the state machine as a struct: rapid.StateMachineActions collects its exported methods of the form Name(*T) / Name(TB), Check is the invariant.
 			// The struct also has methods that are NOT actions (unexported, other signatures); they report themselves if they are ever called.
 			m := &smStruct{fns: actions, rec: r.rec, inv: in.id}
-			for _, k := range []string{"ActA", "ActB", "ActC"} {
+			for _, k := range []string{"ActA", "ActB", "ActC", "ActD"} {
 				if actions[k] == nil {
 					k := k
 					actions[k] = func(t2 *rapid.T) { // a method without a scripted body: skips at once
@@ -659,19 +659,23 @@ func (in *inv) step(op *Op) {
 					}
 				}
 			}
-			names = []string{"ActA", "ActB", "ActC"}
-			r.rec.Emit("sm.begin", F{"inv": in.id, "n": 3, "hasinv": true, "actions": names, "struct": true})
+			names = []string{"ActA", "ActB", "ActC", "ActD"}
+			r.rec.Emit("sm.begin", F{"inv": in.id, "n": 4, "hasinv": true, "actions": names, "struct": true})
 			smdone := false
 			defer func() { r.rec.Emit("sm.end", F{"inv": in.id, "ret": smdone}) }()
 			t.Repeat(rapid.StateMachineActions(m))
 			smdone = true
 			break
 		}
-		r.rec.Emit("sm.begin", F{"inv": in.id, "n": len(op.Actions), "hasinv": op.Inv != nil, "actions": names})
-		smdone := false
-		defer func() { r.rec.Emit("sm.end", F{"inv": in.id, "ret": smdone}) }()
-		t.Repeat(actions)
-		smdone = true
+		for phase := 0; phase <= op.N; phase++ { // N > 0: the SAME map is handed to Repeat again (several phases of one test case sharing their actions)
+			func() {
+				r.rec.Emit("sm.begin", F{"inv": in.id, "n": len(op.Actions), "hasinv": op.Inv != nil, "actions": names, "phase": phase})
+				smdone := false
+				defer func() { r.rec.Emit("sm.end", F{"inv": in.id, "ret": smdone}) }()
+				t.Repeat(actions)
+				smdone = true
+			}()
+		}
 	case "setvar":
 		in.vars[op.Var] = parseItem(op.Val)
 	case "incvar":
@@ -692,6 +696,7 @@ type smStruct struct {
 func (m *smStruct) ActA(t *rapid.T) { m.fns["ActA"](t) }
 func (m *smStruct) ActB(t *rapid.T) { m.fns["ActB"](t) }
 func (m *smStruct) ActC(t rapid.TB) { m.fns["ActC"](t.(*rapid.T)) } // the documented TB form of an action
+func (m *smStruct) ActD(t rapid.TB) { m.fns["ActD"](t.(*rapid.T)) } // (two of them: each name must stay bound to its own method)
 func (m *smStruct) Check(t *rapid.T) {
 	if f := m.fns[""]; f != nil {
 		f(t)
